@@ -12,10 +12,6 @@ theorem decDigits_head (n : Nat) : ∃ b t, decDigits n = b :: t ∧ isDigit b =
   | nil => exact absurd h (decDigits_ne_nil n)
   | cons b t => exact ⟨b, t, rfl, decDigits_all_digits n b (by simp [h])⟩
 
-/-- bytes of the fixed option syntax: ASCII letters, digits, `-`, `=`, `/` -/
-def isOptionByte (b : UInt8) : Bool :=
-  isDigit b || (65 ≤ b && b ≤ 90) || (97 ≤ b && b ≤ 122) || b == 45 || b == 61 || b == 47
-
 theorem fmtInt_bytes (i : Int) : ∀ b ∈ fmtInt i, isOptionByte b = true := by
   intro b hb
   cases i with
